@@ -96,15 +96,15 @@ def setup():
             if rec is None: return orig(self, phase, mol, target, T_guess, P)
             try:
                 T = orig(self, phase, mol, target, T_guess, P)
-            except BaseException as e:
-                rec.append(('ex', _phkey_single(phase), type(e).__name__, str(e)[:200]))
+            except Exception as e:
+                rec.append(('ex', _phkey_single(phase), type(e).__name__, str(e)[:200], float(target)))
                 raise
             try:
                 T = float(T)
                 resid = float(getattr(self, X)(phase, mol, T, P)) - float(target)
                 slope = float(self.Cn(phase, mol, T, P))
                 if entropy: slope /= T
-            except BaseException:
+            except Exception:
                 resid, slope = float('nan'), float('nan')
             rec.append(('ok', _phkey_single(phase), T, resid, slope, float(target)))
             return T
@@ -119,15 +119,15 @@ def setup():
             phase_mol = tuple(phase_mol)
             try:
                 T = orig(self, phase_mol, target, T_guess, P)
-            except BaseException as e:
-                rec.append(('ex', _phkey_multi(phase_mol), type(e).__name__, str(e)[:200]))
+            except Exception as e:
+                rec.append(('ex', _phkey_multi(phase_mol), type(e).__name__, str(e)[:200], float(target)))
                 raise
             try:
                 T = float(T)
                 resid = float(getattr(self, X)(phase_mol, T, P)) - float(target)
                 slope = float(self.xCn(phase_mol, T, P))
                 if entropy: slope /= T
-            except BaseException:
+            except Exception:
                 resid, slope = float('nan'), float('nan')
             rec.append(('ok', _phkey_multi(phase_mol), T, resid, slope, float(target)))
             return T
@@ -145,7 +145,7 @@ def setup():
         spec = {k: float(v) for k, v in kw.items() if v is not None and k in ('T', 'P', 'H')}
         try:
             r = vle_orig(self, **kw)
-        except BaseException as e:
+        except Exception as e:
             vrec.append(('ex', spec, type(e).__name__)); raise
         finally:
             _REC = saved
@@ -163,7 +163,7 @@ def setup():
 
 def budget(tier):
     return {'quick': dict(seconds=80, cases=4800, shrink_s=15, search_s=5),
-            'thorough': dict(seconds=420, cases=120000, shrink_s=40, search_s=20)}[tier]
+            'thorough': dict(seconds=480, cases=90000, shrink_s=40, search_s=20)}[tier]
 
 
 # ----------------------------------------------------------------------------------------------
@@ -190,7 +190,7 @@ def read(s, kind):
     try:
         v = getattr(s, kind)
         return float('nan') if v is None else float(v)
-    except BaseException:
+    except Exception:
         return float('nan')
 
 
@@ -204,7 +204,7 @@ def value_at(s, kind, T, phase=None):
             return float((m.xS if kind == 'S' else m.xH)(pm, T, P))
         mol = s.mol if kind != 'h' else s.z_mol
         return float((m.S if kind == 'S' else m.H)(phase or s.phase, mol, T, P))
-    except BaseException:
+    except Exception:
         return float('nan')
 
 
@@ -266,7 +266,7 @@ def noise_is_cause(s, T0, ph0, Tstar):
             return bool(abs(c.T - Tstar) < 0.05 and ph_of(c) == ph0)
         finally:
             cls.S = orig
-    except BaseException:
+    except Exception:
         cls.S = orig
         return False if fits else None
 
@@ -275,8 +275,8 @@ def sol_tokens(rec):
     if not rec: return '-'
     out = []
     for r in rec:
-        if r[0] == 'ex': out.append(f'ex:{r[1]}')
-        else: out.append(f'ok:{r[1]}:{fbits(r[2])}:{fbits(r[3])}:{fbits(r[4])}')
+        if r[0] == 'ex': out.append(f'ex:{r[1]}:{fbits(r[4])}')
+        else: out.append(f'ok:{r[1]}:{fbits(r[2])}:{fbits(r[3])}:{fbits(r[4])}:{fbits(r[5])}')
     return ';'.join(out)
 
 
@@ -367,6 +367,21 @@ def run_ops(ops):
             fr = flows(t[2])
             if not is_stream(a):
                 objs.append(tmo.Stream(None)); continue
+            switch = len(t) > 6 and t[6] == 'x'        # the share is a stream of the OTHER kind (Stream <-> MultiStream)
+            if switch and is_multi(a):
+                # a single-phase Stream holding a share of the parent's first non-empty phase
+                src = next((ph for ph in a.phases if a.imol[ph].any()), a.phases[0])
+                row = a.imol[src]; arr = row.to_array() if hasattr(row, 'to_array') else list(row)
+                b = tmo.Stream(None, T=max(a.T + float(t[3]), 1.0), P=a.P, phase=src)
+                b.imol.data[:] = [x * f for x, f in zip(arr, fr)]
+                objs.append(b); continue
+            if switch:
+                # a MultiStream over ('g', 'l') holding a share of the single-phase parent in the parent's phase
+                arr = a.mol.to_array() if hasattr(a.mol, 'to_array') else list(a.mol)
+                phs = tuple(sorted(set('gl') | {a.phase}))
+                b = tmo.MultiStream(None, T=max(a.T + float(t[3]), 1.0), P=a.P, phases=phs)
+                b.imol[a.phase] = [x * f for x, f in zip(arr, fr)]
+                objs.append(b); continue
             if is_multi(a):
                 # a share of every phase of a multi-phase parent, over the same phase tuple
                 Pf = float(t[5]) if len(t) > 5 else 1.0
@@ -384,12 +399,13 @@ def run_ops(ops):
             arr = a.mol.to_array() if hasattr(a.mol, 'to_array') else list(a.mol)
             b.imol.data[:] = [x * f for x, f in zip(arr, fr)]
             objs.append(b)
-        elif op in ('mix', 'sum', 'add', 'iadd'):
+        elif op in ('mix', 'sum', 'add', 'iadd', 'radd'):
             # `mix r ins mode q cp [flags]` calls r.mix_from; the same energy path is reached through
             #   `sum ins`   -> Stream.sum([...])  (a NEW stream with the thermal condition of the first one, then mix_from)
             #   `add a b`   -> a + b               (Stream.sum([a, b]))
             #   `iadd a b`  -> a += b              (a.mix_from([a, b]))
-            creates = op in ('sum', 'add')
+            #   `radd a`    -> 0 + a               (a.__radd__(0) = Stream.sum([a, 0]); what the builtin sum() starts with)
+            creates = op in ('sum', 'add', 'radd')
             if op == 'mix':
                 recv = objs[int(t[1])]
                 idx = [int(x) for x in t[2].split(',')] if t[2] != '-' else []
@@ -397,16 +413,17 @@ def run_ops(ops):
                 mode, qv, cp = t[3], float(t[4]), t[5] == '1'
                 flags = t[6] if len(t) > 6 else ''
             else:
-                idx = [int(x) for x in (t[1].split(',') if op == 'sum' else t[1:3])]
+                idx = [int(x) for x in (t[1].split(',') if op == 'sum' else t[1:2] if op == 'radd' else t[1:3])]
                 ins = [objs[i] for i in idx]
-                mode, qv, cp, flags = 'abs', 0.0, False, ''
+                mode, qv, cp, flags = 'abs', 0.0, False, (t[2] if op == 'sum' and len(t) > 2 else '')
+                if op == 'radd': ins = ins + [None]          # the 0 is skipped like a missing stream
                 if op == 'iadd':
                     recv = ins[0]
                 elif ins and is_stream(ins[0]):
                     recv = tmo.Stream(None); recv.copy_thermal_condition(ins[0])      # what Stream.sum starts from
                 else:
                     recv = None
-            if not is_stream(recv) or (op != 'mix' and not all(is_stream(i) for i in ins)):
+            if not is_stream(recv) or (op != 'mix' and not all(is_stream(i) or i is None for i in ins)):
                 if creates: objs.append(tmo.Stream(None))
                 continue
             vle, eb = 'v' in flags, 'n' not in flags
@@ -436,14 +453,17 @@ def run_ops(ops):
             vrec = []; _VREC = vrec
             out = 'ok'
             Fin = sum(float(i.F_mol) for i in streams)
+            ref_err = False
             Ts0 = streams[0].T if streams else None
             try:
                 if op == 'mix': recv.mix_from(ins, energy_balance=eb, vle=vle, Q=Q, conserve_phases=cp)
-                elif op == 'sum': recv = tmo.Stream.sum(ins)
+                elif op == 'sum': recv = tmo.Stream.sum(ins, energy_balance=eb, vle=vle)
+                elif op == 'radd': recv = 0 + ins[0]
                 elif op == 'add': recv = ins[0] + ins[1]
                 else: recv += ins[1]
-            except BaseException as e:
+            except Exception as e:
                 out = 'raised'; tags.add('mix-raised:' + type(e).__name__ + (':' + str(e)[:60] if isinstance(e, ReferenceError) else ''))
+                ref_err = isinstance(e, ReferenceError)      # numba / fork artefact inside the flash, not thermosteam's doing
             finally:
                 _REC = None; _VREC = None
             if creates: objs.append(recv)
@@ -458,10 +478,14 @@ def run_ops(ops):
                 v = vrec[-1]
                 vres = f'ok:{fbits(v[2])}:{chars(v[3])}' if v[0] == 'ok' else 'ex'
                 sp = v[1]
-                vs = (f'H:{fbits(sp["H"])}:{fbits(sp["P"])}' if 'H' in sp else f'T:{fbits(sp["T"])}:{fbits(sp["P"])}')
+                if 'H' in sp and 'P' in sp: vs = f'H:{fbits(sp["H"])}:{fbits(sp["P"])}'
+                elif 'T' in sp and 'P' in sp: vs = f'T:{fbits(sp["T"])}:{fbits(sp["P"])}'
+                else:
+                    vs = '-'
+                    fail('mix:vle-spec', f'mix_from asked the flash for {sorted(sp)} (expected H, P with the energy balance, T, P without)')
             else:
                 vres, vs = '-', '-'
-            model_in.append(head + f' vres={vres} sol={sol_tokens(rec)}')
+            model_in.append(head + f' vspec={vs} vres={vres} sol={sol_tokens(rec)}')
             energy_claim = eb and N >= 1               # without the energy balance the property makes no enthalpy claim
             start_ok = all(indom(i.T) for i in streams) if eb else indom(T0r)
             if vle and any(set(ph_of(i)) & set('LSs') for i in streams):
@@ -493,7 +517,7 @@ def run_ops(ops):
                     wantP = min(Ps) if N >= 2 else P0r
                     if recv.P != wantP:
                         fail('mix:pressure', f'receiver.P = {recv.P!r}, expected {wantP!r} (energy_balance=False, N={N})')
-                elif not vx:
+                elif not ref_err:
                     fail('mix:raised', f'mix_from(energy_balance=False) raised (N={N}, vle={vle})')
             elif N >= 1 and out == 'ok':
                 if not abs(Hread - expected) <= tol:
@@ -511,8 +535,14 @@ def run_ops(ops):
                         fail('mix:isothermal', f'inlets all {streams[0].phase} at T = {Ts0!r}, no heat, but the receiver ends at {recv.T!r}')
                 if not abs(float(recv.F_mol) - Fin) <= 1e-9 * Fin:
                     # the enthalpy assigned belongs to the inlets' material: the receiver must hold all of it
-                    fail('mix:material', f'receiver holds {float(recv.F_mol)!r} kmol/hr, the non-empty inlets {Fin!r}')
-            elif N >= 1 and mode != 'huge' and not vle:
+                    # one documented way this happens: the receiver is one of the inlets, the first assignment raised, and the
+                    # bare-except fallback of mix_from runs `self._imol.mix_from(streams)` a second time on the already
+                    # mixed receiver (its own, now mixed, material is added again)
+                    refallback = alias and any(r[0] == 'ex' for r in rec) and rec[-1][0] == 'ok'
+                    fail('mix:material' + (':alias-fallback' if refallback else ''),
+                         f'receiver holds {float(recv.F_mol)!r} kmol/hr, the non-empty inlets {Fin!r}'
+                         + (' (receiver among the inlets, first assignment raised, the fallback mixed the material again)' if refallback else ''))
+            elif N >= 1 and mode != 'huge' and not ref_err:
                 # raised although the heat input is moderate: is the target inside the range of the models?
                 if lo == lo and hi == hi and lo <= expected <= hi:
                     fail('mix:raised', f'mix_from raised although Σ inlet.H + Q = {expected!r} lies between Σ H(250 K) = {lo!r} '
@@ -535,7 +565,7 @@ def run_ops(ops):
             try:
                 if op == 'sep': a.separate_out(b)
                 else: a -= b
-            except BaseException as e:
+            except Exception as e:
                 out = 'raised'; tags.add('sep-raised:' + type(e).__name__)
             finally:
                 _REC = None
@@ -545,6 +575,7 @@ def run_ops(ops):
             model_in.append(head + f' ea={1 if a.isempty() else 0} kind=H sol={sol_tokens(rec)}')
             outs.append(answer(a, out, Hread, rec, tol, start_ok))
             if is_multi(a) or (b is not None and is_multi(b)): tags.add('sep:multi-phase')
+            if b is not None and is_multi(a) != is_multi(b): tags.add('sep:stream-vs-multistream')
             if op == 'isub': tags.add('sep:via:isub')
             tags.add('sep' + (':none' if b is None else ':empty-other' if b_empty else ':same' if a is b else
                               f':{"sameT" if b.T == Ta else "otherT"}:{"samephase" if ph_of(b) == pha else "otherphase"}'))
@@ -578,7 +609,7 @@ def run_ops(ops):
                 if kind[0] == 'x': nxt = f(T, X, lambda pm, T_, P_: XT, (), 101325., lambda pm, T_, P_=None: Cn, [0, None])
                 else: nxt = f(T, X, lambda ph, m, T_, P_: XT, 'l', None, 101325., lambda ph, m, T_, P_=None: Cn, [0, None])
                 ans = f'next={fbits(float(nxt))}'
-            except BaseException as e:
+            except Exception as e:
                 nxt = None; ans = 'next=raised'
             model_in.append(f'iter kind={kind} T={fbits(T)} X={fbits(X)} XT={fbits(XT)} Cn={fbits(Cn)}')
             outs.append(ans)
@@ -629,7 +660,7 @@ def run_ops(ops):
             try:
                 if via_Hnet: s.Hnet = v
                 else: setattr(s, kind, x)
-            except BaseException as e:
+            except Exception as e:
                 out = 'raised'; tags.add(f'set-raised:{kind}:' + type(e).__name__)
             finally:
                 _REC = None
@@ -665,14 +696,25 @@ def run_ops(ops):
                 # misuses sound solver answers is not excused.
                 _TSTAR[0] = None
                 mono = micro_monotone(s, kind, x, None if is_multi(s) else ph0) if kind == 'S' else None
-                excused = (mono is False and (readback_ok or last_call_unsound(rec, RTOL[tk]))
-                           and noise_is_cause(s, T0, ph0, _TSTAR[0]) is True)
+                # Independent evidence first (the real S function only): bisection brackets a root in [250, 500] K and S is
+                # not strictly increasing at the solver's scale around it; then, as a further necessary condition, the
+                # smooth re-run.  Two guises are told apart:
+                #  * the value read back is right (within the noise tolerance) but the temperature is unphysical — the
+                #    liquid solve failed and the fallback found a consistent answer in the other phase: same signature as
+                #    the raise;
+                #  * the value read back is wrong AND the temperature is outside [150, 1500] K AND the solver's last
+                #    answer does not reproduce its own target — the iteration wandered off: its own signature.
+                # A wrong read-back at a physical temperature is never excused.
+                documented = mono is False and noise_is_cause(s, T0, ph0, _TSTAR[0]) is True
+                excused = documented and readback_ok
+                wandered = documented and not readback_ok and left_dom and last_call_unsound(rec, RTOL[tk])
                 sig = ('set:raised:S:model-not-monotone' if excused else
+                       'set:left-domain:S:model-not-monotone' if wandered else
                        f'set:readback:{kind}' if not readback_ok else f'set:left-domain:{kind}')
                 fail(sig, f'assigned {kind} = {x!r} to a {ph0} stream, read back {back!r} '
                           f'(T {T0!r} → {s.T!r}, phase now {ph_of(s)})'
                           + (' (the property function is not strictly increasing at the 2e-6 K scale around the solution)'
-                             if excused else ''))
+                             if excused or wandered else ''))
             if out == 'ok':
                 # the solver's own T_tol; where liquid entropy is involved, the float noise of thermo's
                 # liquid entropy integral (the rtol of the S hypothesis) divided by the slope dS/dT
@@ -782,14 +824,14 @@ def ops_kind(ops, index):
     k = -1
     for o in ops:
         w = o.split(' ')[0]
-        if w in ('S', 'M', 'MP', 'Q', 'W', 'N', 'sub', 'sum', 'add'):
+        if w in ('S', 'M', 'MP', 'Q', 'W', 'N', 'sub', 'sum', 'add', 'radd'):
             k += 1
             if k == index: return w
     return None
 
 
 def nobj(ops):
-    return sum(1 for o in ops if o.split(' ')[0] in ('S', 'M', 'MP', 'Q', 'W', 'N', 'sub', 'sum', 'add'))
+    return sum(1 for o in ops if o.split(' ')[0] in ('S', 'M', 'MP', 'Q', 'W', 'N', 'sub', 'sum', 'add', 'radd'))
 
 
 def gen_stream(rng, ops, empty=None, trace=False):
@@ -803,7 +845,7 @@ def gen_stream(rng, ops, empty=None, trace=False):
         fl = gen_flows(rng, empty or rng.random() < 0.15, trace)
         ops.append(f'M {gen_T(rng)} {gen_P(rng)} {fg}|{fl}')
     else:
-        ph = 'l' if r < 0.55 else 'L' if r < 0.60 else 'g'              # 'L': a second liquid phase (organic / extract)
+        ph = 'l' if r < 0.53 else 'L' if r < 0.58 else 's' if r < 0.61 else 'g'   # 'L': a second liquid phase; 's': a solid
         ops.append(f'S {ph} {gen_T(rng)} {gen_P(rng)} {gen_flows(rng, empty, trace)}')
     return nobj(ops) - 1
 
@@ -934,11 +976,14 @@ def gen_case(rng):
     only_streams = [i for i in streams if ops_kind(ops, i) in ('S', 'M', 'MP')]
     r = rng.random()
     if r < 0.10 and only_streams:
-        add_obj(ops, f'sum {",".join(map(str, rng.sample(only_streams, min(len(only_streams), rng.choice([1, 2, 3])))))}')
+        add_obj(ops, (f'sum {",".join(map(str, rng.sample(only_streams, min(len(only_streams), rng.choice([1, 2, 3])))))} '
+                      + gen_flags(rng)).rstrip())
     elif r < 0.16 and len(only_streams) >= 2:
         a, b = rng.sample(only_streams, 2); add_obj(ops, f'add {a} {b}')
     elif r < 0.22 and only_streams:
         ops.append(f'iadd {recv} {rng.choice(only_streams)}')
+    elif r < 0.26 and only_streams:
+        add_obj(ops, f'radd {rng.choice(only_streams)}')
     if rng.random() < 0.5: ops.append(gen_iter(rng))
     # assignments and separations afterwards
     cand = streams + [recv]
@@ -957,7 +1002,7 @@ def gen_case(rng):
                 fr = ','.join(r6(rng.uniform(0, top)) if rng.random() < 0.8 else '0.0' for _ in CHEMS)
                 dT = '0.0' if same_T else r6(rng.uniform(-25, 25))
                 Pf = r6(rng.choice([0.5, 2.0])) if rng.random() < 0.15 else '1.0'
-                b = add_obj(ops, f'sub {a} {fr} {dT} {"other" if other_ph else "same"} {Pf}')
+                b = add_obj(ops, f'sub {a} {fr} {dT} {"other" if other_ph else "same"} {Pf}' + (' x' if rng.random() < 0.2 else ''))
                 if rng.random() < 0.2:
                     ops.append(f'isub {a} {b}'); continue
                 ops.append(f'sep {a} {b}')
